@@ -178,6 +178,42 @@ def run(ctx):
         traces.append(t)
         info[t["id"]] = {"src": "reject", "class": kind + ("@repair-pending" if pending else ""), "tx": bad.hex()[:200]}
     res.coverage["undecodable_or_empty_script"] = n_bad
+    # what the device is handed for a transaction signed right after a transfer the device cut short (status word,
+    # time-out) on the same manager: still the canonical form of *that* transaction
+    import struct
+    n_after = ctx.pick(40, 600)
+    for i in range(n_after):
+        install(world)
+        world.device.mode = MODE_SIGNER
+        proto._comm_issue = False
+        reqA = reqs.make(ctx.rng.choice(["sign_legacy", "sign_segwit"]), ctx.rng)[0]
+        world.reset_counters()
+        world.faults = {ctx.rng.choice([1, 2, 3]): ctx.rng.choice([("sw", 0x6A88), ("sw", 0x6A8A), ("timeout",), ("sw", 0x6B00)])}
+        mgr.handle_line(proto, json.dumps(reqA).encode())
+        world.reset_counters()
+        reqB, stB = reqs.make(ctx.rng.choice(["sign_legacy", "sign_segwit"]), ctx.rng)
+        del world.device.sign_log[:]
+        world.device.sign = None
+        o = mgr.handle_line(proto, json.dumps(reqB).encode())
+        sess = world.device.sign_log[-1] if world.device.sign_log else world.device.sign
+        st, keep, raw = unsignx.from_enc_tx(stB["tx"])
+        t = {"kind": "tx", "tx": unsignx.tx_rec(st), "keep": list(keep), "parsed": False, "out": unsignx.tx_rec(st),
+             "keepout": [], "raw": [256], "raw2": [256], "rawv": [256], "code": 0, "contacted": True}
+        try:
+            btc = bytes(sess["got"]["btc"])
+            extralen = struct.unpack("<H", btc[5:7])[0]
+            relayed = btc[7:len(btc) - extralen]
+            t["raw"] = list(relayed)
+            t["rawv"] = list(relayed)
+            ost, okeep = unsignx.parse_tx(relayed)
+            t["parsed"], t["out"], t["keepout"] = True, unsignx.tx_rec(ost), list(okeep)
+            t["raw2"] = list(real_unsign(relayed.hex()))
+        except Exception:
+            pass
+        t["id"] = len(traces) + 1
+        traces.append(t)
+        info[t["id"]] = {"src": "after-cut-transfer", "reply": (o.reply() or {}).get("errorcode")}
+    res.coverage["signed_after_a_cut_transfer"] = n_after
     verdicts, stats = tlc.validate("TraceUnsign", "Trace_Unsign.cfg", traces, shards=14)
     res.checker_cmds.append("tlc -workers 1 -config Trace_Unsign.cfg TraceUnsign (x%d shards)" % stats["jvms"])
     accepted = 0
